@@ -33,6 +33,7 @@ CATALOGUE = [
     "mov N[10](sp), N[2](pc)", "sub: tst D(r0)", ".word lab - sub, x1", "bcs lab", "emt N[377]", "spl N[5]", ".dword {X}",
     "tbl: .word {X}, ., . - tbl, lab - .", "mov #-N[5], r0", "tb2: .word -N[17] + {X}, -N[1]", "add #-N[2], D(r0)", "mov -N[4](r2), r3",
     "mov #G( -N[3] + {X} G), r1",
+    "bne G( N[4] * N[1] + lab - N[4] G)", "sob r2, G( N[2] + lab - N[2] G)", "br G( lab G)", "trap -N[1]", "emt -N[200]", "trap G( {V} - N[400] G)",
 ]
 SYNONYMS = {"bcs": "blo", "bcc": "bhis", "trap": "sys", "jsr pc,": "call", "rts pc": "ret", "clnzvc": "ccc", "ldf": "ldd", "stf": "std"}
 
@@ -223,6 +224,10 @@ def obligations(tier, seed):
                 continue
             canon, var = make_pair([stmt], [first, second], {})
             add(f"rule2/{first}+{second}", canon, var)
+    # '.end' in every letter case, before text that is not even a statement
+    for sp in (".END", ".End", "END", "eNd"):
+        canon = ".link {B}\nmov #{X}, r1\n.end\n))) ^Z 'x\n"
+        obs.append(_ob(f"end-spelling/{sp}", canon, canon.replace(".end", sp)))
     # symbols exported by another file: the letter case of the definition and of the reference are independent
     defs = "lab:: .word {X}, lab, 17\nsub:: tst (r0)\nx1 == {X} + 2\n"
     uses = ["jsr pc, sub", "sob r2, lab", "bne lab", "mov #x1, @#x1", ".word lab - sub, x1", "bcs lab", "mov lab, sub"]
